@@ -16,7 +16,7 @@ from .common import Out, drop_each, with_, REAL_ALL, STUB_ALL
 ID = "C10"
 TIERS = {"quick": {"n": 2600, "chunk": 40}, "thorough": {"n": 60000, "chunk": 150, "wall_cap": 3300}}
 RULE = (
-    "each scenario is a seeded history of 2-7 runs (1 in 10: 8-20) drawn from {g1,g2} x {new,reused CsvPaths} x 7 run forms, the simulated clock set before each run by a profile "
+    "each scenario is a seeded history of 2-7 runs (1 in 10: 8-20; 1 in 25: a burst of 12-17 runs of one group inside one second followed by a later run) drawn from {g1,g2} x {new,reused CsvPaths} x 7 run forms, the simulated clock set before each run by a profile "
     "(same second, +1s, +minutes, to 12:59:5x/13:00:0x, to 23:59:5x/00:00:0x, +12h exactly, backward step), 0 or 1 ms clock advance per read, listdir order permuted; invariants are checked after every run. "
     "Non-trivial = at least two runs of one group, or a reused instance; distinct = distinct sequences of step classes (group, new/reused, serial/by-line, collecting?, clock profile)."
 )
@@ -58,7 +58,30 @@ def _apply(rng, t, prof):
     raise ValueError(prof)
 
 
+def generate_burst(rng):
+    """Many runs of (mostly) one group inside one clock second: the '.N' suffix range goes to two digits."""
+    n = rng.randint(12, 17)
+    t = seams.EPOCH.replace(hour=rng.choice([9, 12, 23]), minute=59, second=rng.choice([58, 59]))
+    g = rng.choice(["g1", "g2"])
+    steps = []
+    for s in range(n):
+        steps.append(
+            {
+                "at": seams.iso(t),
+                "profile": "start" if s == 0 else "same",
+                "inst": "new" if (s == 0 or rng.random() < 0.5) else "reused",
+                "group": g if rng.random() < 0.9 else ("g2" if g == "g1" else "g1"),
+                "method": rng.choice(["collect_paths", "fast_forward_paths", "collect_by_line", "next_paths_collect"]),
+            }
+        )
+    t2 = _apply(rng, t, rng.choice(["+1s", "+min"]))
+    steps.append({"at": seams.iso(t2), "profile": "+1s", "inst": "new", "group": g, "method": "collect_paths"})
+    return {"seed": rng.getrandbits(32), "listdir_salt": rng.choice([None, rng.getrandbits(16)]), "step_us": 0, "steps": steps}
+
+
 def generate(rng, i, tier):
+    if i % 25 == 24:
+        return generate_burst(rng)
     long = rng.random() < 0.1
     n = rng.randint(8, 20) if long else rng.randint(2, 7)
     t = seams.EPOCH.replace(hour=rng.choice([9, 11, 12, 22, 23]), minute=rng.choice([26, 58, 59]), second=rng.choice([53, 57, 58, 59]))
@@ -216,6 +239,9 @@ def execute(sc):
                 out.probe("two runs in one second")
                 if st["inst"] == "reused":
                     out.probe("two runs in one second, reused instance")
+            same = [r for r in runs if r["group"] == g and _sec(r["invoke"]) == _sec(invoke)]
+            if len(same) >= 12:
+                out.probe("12 or more runs of one group in one second")
             if len(runs) >= 2 and runs[-2]["invoke"].hour == 12 and invoke.hour == 13:
                 out.probe("12:59 -> 13:00")
             if len(runs) >= 2 and runs[-2]["invoke"].date() != invoke.date():
@@ -253,7 +279,7 @@ def execute(sc):
             out.log(idx, list(cls), d, sorted(p for p in after if p not in before), len(out.violations))
             if out.violations:
                 break
-        for pr in ("group addressed through a member reference", "two runs in one second", "two runs in one second, reused instance", "12:59 -> 13:00", "across midnight", "exactly 12h apart", "ordered pair compared", ":last resolved", ":first resolved"):
+        for pr in ("12 or more runs of one group in one second", "group addressed through a member reference", "two runs in one second", "two runs in one second, reused instance", "12:59 -> 13:00", "across midnight", "exactly 12h apart", "ordered pair compared", ":last resolved", ":first resolved"):
             out.probe(pr, False)
         out.nontrivial = len(runs) >= 2
         out.extra["step_class_pairs"] = pairs
